@@ -10,10 +10,6 @@ import (
 	"verif/engine/sched"
 )
 
-// SelfTestScenarios are registered by checks that volunteer small scenarios for
-// the engine self-test (outcome set with the cache == outcome set without it).
-var SelfTestScenarios []*Scenario
-
 func outcomeSet(st sched.Stats) string {
 	var ks []string
 	for k := range st.Outcomes {
